@@ -17,7 +17,7 @@ import (
 	"verifharness/gen"
 )
 
-var partPool = []string{"foo_bar", "FooBar", "fooBar", "foo", "bar", "Foo", "Bar", "id", "ID", "user_id", "userId", "type", "Type", "_x", "x_", "a__b", "A", "a", "x-y", "x y", "é", "HTTP", "http", "Http", "X1", "x_1", "1"}
+var partPool = []string{"foo_bar", "FooBar", "fooBar", "Foo_Bar", "foo__bar", "FooBar0", "Prefix", "Id", "foo", "bar", "Foo", "Bar", "id", "ID", "user_id", "userId", "type", "Type", "_x", "x_", "a__b", "A", "a", "x-y", "x y", "é", "HTTP", "http", "Http", "X1", "x_1", "1"}
 
 func repoDir() string {
 	if d := os.Getenv("VERIF_REPO"); d != "" {
@@ -176,14 +176,36 @@ func Run(c *gen.Ctx) error {
 	var descr []any
 	hr := r.Fork(1)
 	collisions := 0
+	// pinned histories: families of three to five names that normalise to ONE identifier, as types (public) and as
+	// private names, each family in two orders, alone and followed by a name that equals a suffixed one
+	var pinnedHist [][]call
+	for _, fam := range [][]string{{"foo_bar", "FooBar", "fooBar", "Foo_Bar", "foo__bar"}, {"http", "HTTP", "Http"}, {"id", "ID", "Id"}} {
+		for _, private := range []bool{false, true} {
+			var fwd, rev []call
+			for i := range fam {
+				fwd = append(fwd, call{Private: private, Parts: []string{fam[i]}})
+				rev = append(rev, call{Private: private, Parts: []string{fam[len(fam)-1-i]}})
+			}
+			pinnedHist = append(pinnedHist, fwd, rev, append(append([]call{}, fwd[:2]...), call{Private: private, Parts: []string{"FooBar0"}}, fwd[2]),
+				append(append([]call{}, fwd...), call{Parts: []string{"Prefix", fam[0]}}, call{Parts: []string{"Prefix", fam[1]}}, call{Parts: []string{"Prefix", fam[2]}}))
+		}
+	}
+	nHist += len(pinnedHist)
 	for h := 0; h < nHist; h++ {
 		templates.VerifResetModelNames()
 		n := 3 + hr.Intn(25)
+		var pinnedCalls []call
+		if h < len(pinnedHist) {
+			pinnedCalls = pinnedHist[h]
+			n = len(pinnedCalls)
+		}
 		var calls []call
 		var names, coqCalls, coqNames []string
 		for i := 0; i < n; i++ {
 			var cl call
-			if i > 0 && hr.Chance(1, 5) {
+			if pinnedCalls != nil {
+				cl = pinnedCalls[i]
+			} else if i > 0 && hr.Chance(1, 5) {
 				cl = calls[hr.Intn(len(calls))] // the same entity again
 				if hr.Chance(1, 3) {
 					cl.Private = !cl.Private
